@@ -16,6 +16,18 @@ def arr(vals, dtype=float):
     return np.array([np.nan if v is None else v for v in vals], dtype=dtype)
 
 
+def carried(rng, vals, poisons=(50.0, -50.0, 0.0, 1.0), p_masked=0.2, p_list=0.15):
+    """the same logical series as an ndarray with NaN, a list with None, or a masked array hiding a FINITE value
+    under every missing element (reading under the mask must not change anything)"""
+    r = rng.random()
+    if r < p_masked and any(v is None for v in vals):
+        return np.ma.MaskedArray(np.array([rng.choice(poisons) if v is None else v for v in vals], dtype=float),
+                                 mask=[v is None for v in vals])
+    if r < p_masked + p_list:
+        return list(vals)
+    return arr(vals)
+
+
 def nanlist(vals):
     return [NAN if v is None else v for v in vals]
 
